@@ -36,7 +36,8 @@ pub const F_DUP_STORM: usize = 22;
 pub const F_SOAK_LOOP: usize = 23;
 pub const F_CLOCK_TICK: usize = 24;
 pub const F_ROLL_CALL: usize = 25;
-pub const N_FAULTS: usize = 26;
+pub const F_RAMP: usize = 26;
+pub const N_FAULTS: usize = 27;
 pub const FAULT_NAMES: [&str; N_FAULTS] = [
     "drop",
     "dup",
@@ -64,6 +65,7 @@ pub const FAULT_NAMES: [&str; N_FAULTS] = [
     "soak-loop",
     "clock-ticks-inside-calls(runs)",
     "roll-call",
+    "ramp",
 ];
 
 /// Per-property weights. One world, shifted towards the property's subject.
@@ -292,6 +294,9 @@ pub fn draw_cfg(r: &mut Rng, p: &Preset) -> Cfg {
         }
         if r.chance(1, 6) {
             rate[F_ROLL_CALL] = 1;
+        }
+        if r.chance(1, 8) {
+            rate[F_RAMP] = 1;
         }
         if r.chance(1, 4) {
             rate[F_POLL_WRONG_CHANNEL] = *r.pick(&[20u64, 80]);
@@ -1042,6 +1047,70 @@ impl<'a> Gen<'a> {
         self.note_delivered(m);
     }
 
+    /// A knob sweep: one selection, then a long monotone run of values (14-bit fine adjustments
+    /// with the MSB stepping every 128, a 14-bit CC, 7-bit data entries, or increments) - hundreds
+    /// of reports in a row, each greater (or smaller) than the last. Soak loops cannot produce
+    /// this: a repeated cycle has to come back down.
+    fn emit_ramp(&mut self, ch: u8) {
+        self.fire(F_RAMP, Some(ch));
+        let repr = self.repr();
+        let n = *self.r.pick(&[40u32, 130, 257, 260, 300, 520]);
+        let up = self.r.chance(3, 4);
+        let start: u32 = if up { self.r.below(300) as u32 } else { 16383 - self.r.below(300) as u32 };
+        let val = |i: u32| -> u16 { (if up { start + i } else { start - i }) as u16 & 0x3fff };
+        let form = self.r.below(4);
+        let mut ev: Vec<Ev> = Vec::new();
+        let mut feed = |cn: u8, v: u8| ev.push(Ev::Feed { b: [0xB0 | ch, cn, v], repr });
+        match form {
+            0 | 1 => {
+                // (N)RPN 14-bit sweep: MSB first (polling scanner's documented form) or LSB first
+                let (num, reg) = (self.r.below(16384) as u16, self.r.chance(1, 2));
+                let (x, y) = if reg { (101u8, 100u8) } else { (99, 98) };
+                feed(x, (num >> 7) as u8);
+                feed(y, (num & 0x7f) as u8);
+                let mut last_msb = 255u16;
+                for i in 0..n {
+                    let v = val(i);
+                    if form == 0 {
+                        if v >> 7 != last_msb {
+                            feed(6, (v >> 7) as u8);
+                            last_msb = v >> 7;
+                        }
+                        feed(38, (v & 0x7f) as u8);
+                    } else {
+                        feed(38, (v & 0x7f) as u8);
+                        feed(6, (v >> 7) as u8);
+                    }
+                }
+            }
+            2 => {
+                // 14-bit CC sweep
+                let cn = self.r.below(32) as u8;
+                let mut last_msb = 255u16;
+                for i in 0..n {
+                    let v = val(i);
+                    if v >> 7 != last_msb {
+                        feed(cn, (v >> 7) as u8);
+                        last_msb = v >> 7;
+                    }
+                    feed(cn + 32, (v & 0x7f) as u8);
+                }
+            }
+            _ => {
+                // 7-bit data entries and increments after one selection
+                feed(99, 1);
+                feed(98, 2);
+                for i in 0..n {
+                    feed(if i % 5 == 4 { 96 } else { 6 }, (val(i) & 0x7f) as u8);
+                }
+            }
+        }
+        self.ev.extend(ev);
+        self.ev.push(Ev::Adv { ns: self.cfg.timeout_ns });
+        self.ev.push(Ev::Poll { ch });
+        self.inflight[ch as usize] = true;
+    }
+
     /// Saturation: every one of the 16 channels gets the same short prefix in a row (a number half,
     /// a full number, a pending value byte, a CC14 MSB ...), then something global happens (reset,
     /// a poll on every channel, nothing), then every channel is probed. "All slots in use at once"
@@ -1314,6 +1383,10 @@ impl<'a> Gen<'a> {
                         self.cfg.rate[F_ROLL_CALL] = 0; // once per run
                         self.emit_roll_call();
                     }
+                    if self.cfg.rate[F_RAMP] > 0 && self.r.chance(1, 12) {
+                        self.cfg.rate[F_RAMP] = 0; // once per run
+                        self.emit_ramp(ch);
+                    }
                     if self.cfg.rate[F_SOAK_LOOP] > 0 && self.soaks < 2 && self.r.chance(1, 40) {
                         self.soaks += 1;
                         self.emit_interrupted_pair(ch);
@@ -1464,6 +1537,10 @@ impl<'a> Gen<'a> {
                 if self.cfg.rate[F_ROLL_CALL] > 0 && self.r.chance(1, 12) {
                     self.cfg.rate[F_ROLL_CALL] = 0; // once per run
                     self.emit_roll_call();
+                }
+                if self.cfg.rate[F_RAMP] > 0 && self.r.chance(1, 12) {
+                    self.cfg.rate[F_RAMP] = 0; // once per run
+                    self.emit_ramp(c);
                 }
                 if self.cfg.rate[F_SOAK_LOOP] > 0 && self.soaks < 2 && self.r.chance(1, 40) {
                     self.soaks += 1;
